@@ -50,11 +50,25 @@ def _note_sort(s, sorts):
         _note_sort(s.range(), sorts)
 
 
+def finite_scope_smt2(smt2, scope=3, timeout_ms=10000):
+    # parsed into the process's main context (candidate search only: verdicts
+    # proper are always produced in fresh contexts)
+    fs = list(z3.parse_smt2_string(smt2))
+    r = _finite(fs, scope, timeout_ms, None)
+    if r is not None:
+        r['ctx'] = None
+    return r
+
+
 def finite_scope(ob, scope=3, timeout_ms=10000):
     hyps = list(ob.hyps)
     fs = hyps + vc.background(hyps + [ob.goal]) + [z3.Not(ob.goal)]
     if vc.uses(fs, set(vc.TRANSCENDENTAL)):
         fs, _ = vc.ackermannize(fs)
+    return _finite(fs, scope, timeout_ms, None)
+
+
+def _finite(fs, scope, timeout_ms, ctx):
     # NNF + skolemisation: remaining quantifiers are universal
     g = z3.Goal()
     for f in fs:
@@ -83,6 +97,7 @@ def finite_scope(ob, scope=3, timeout_ms=10000):
         return None
 
     cache = {}
+    exact = [True]
 
     def expand(f, depth=0):
         k = f.get_id()
@@ -93,13 +108,17 @@ def finite_scope(ob, scope=3, timeout_ms=10000):
                 r = f
             else:
                 doms = [dom(f.var_sort(i)) for i in range(f.num_vars())]
+                if any(f.var_sort(i) == z3.IntSort() for i in range(f.num_vars())):
+                    exact[0] = False            # integers expanded on a window only
                 if any(d is None for d in doms):
+                    exact[0] = False
                     r = z3.BoolVal(True)        # weakening: candidate only
                 else:
                     size = 1
                     for d in doms:
                         size *= len(d)
                     if size > 4096:
+                        exact[0] = False
                         r = z3.BoolVal(True)
                     else:
                         body = f.body()
@@ -148,7 +167,7 @@ def finite_scope(ob, scope=3, timeout_ms=10000):
     if r != z3.sat:
         return None
     m = s.model()
-    return {'text': str(m), 'model': m, 'scope': scope}
+    return {'text': str(m), 'model': m, 'scope': scope, 'exact': exact[0]}
 
 
 def _closure_const(c, universe, out, dom, depth=0):
